@@ -162,7 +162,8 @@ func Run(cfg hx.Config) error {
 	for ti := range ts {
 		t := &ts[ti]
 		nf := nfeeds
-		if strings.HasSuffix(t.name, "-fetch") || strings.HasPrefix(t.name, "vex-") {
+		if strings.HasSuffix(t.name, "-fetch") || strings.HasPrefix(t.name, "vex-") || t.name == "epss" {
+			// (epss ParseEnrichment allocates room for 250000 records per call)
 			// a run of these is a whole Fetch (dozens of requests): one feed in the quick tier
 			nf = cfg.N(1, nfeeds)
 		}
